@@ -67,6 +67,10 @@ func (s *Server) Completion(ctx context.Context, params *protocol.CompletionPara
 	}
 
 	query := extractQueryText(doc, params.Position, completionCtx)
+	if editRange != nil {
+		// filter by exactly the text that accepting an item replaces
+		query = textBeforeCursor(doc, *editRange)
+	}
 	scored := filterAndScoreFuzzyMatch(items, query, settings.Completion.FuzzyMatching)
 	items = rankCompletionItemsByScore(scored, counts, query)
 
@@ -674,6 +678,10 @@ func calculateTextEditRange(content string, pos protocol.Position, ctxType Compl
 		} else {
 			trimmed := strings.TrimLeft(line[:byteCol], " \t")
 			startByte = byteCol - len(trimmed)
+			// the bracket of a virtual posting is not part of the account name
+			if startByte < byteCol && (line[startByte] == '(' || line[startByte] == '[') {
+				startByte++
+			}
 		}
 	case ContextCommodity:
 		if strings.HasPrefix(line, directiveCommodity) {
@@ -688,6 +696,27 @@ func calculateTextEditRange(content string, pos protocol.Position, ctxType Compl
 			for startByte < byteCol && (line[startByte] == ' ' || line[startByte] == '*' || line[startByte] == '!') {
 				startByte++
 			}
+			// a transaction code stands between the status and the payee
+			if startByte < byteCol && line[startByte] == '(' {
+				if closing := strings.IndexByte(line[startByte:byteCol], ')'); closing != -1 {
+					startByte += closing + 1
+					for startByte < byteCol && line[startByte] == ' ' {
+						startByte++
+					}
+				}
+			}
+		}
+	case ContextTagName:
+		// the tag name being typed starts after the ';' or the last ','
+		startByte = strings.LastIndexAny(line[:byteCol], ";,") + 1
+		for startByte < byteCol && (line[startByte] == ' ' || line[startByte] == '\t') {
+			startByte++
+		}
+	case ContextTagValue:
+		// the value being typed starts after the tag's colon
+		startByte = strings.LastIndexByte(line[:byteCol], ':') + 1
+		for startByte < byteCol && (line[startByte] == ' ' || line[startByte] == '\t') {
+			startByte++
 		}
 	default:
 		return nil
@@ -704,6 +733,28 @@ func calculateTextEditRange(content string, pos protocol.Position, ctxType Compl
 		Start: protocol.Position{Line: pos.Line, Character: uint32(startChar)},
 		End:   pos,
 	}
+}
+
+// textBeforeCursor returns the text an edit range covers (a range on one line
+// that ends at the cursor).
+func textBeforeCursor(content string, r protocol.Range) string {
+	lines := strings.Split(content, "\n")
+	if int(r.Start.Line) >= len(lines) {
+		return ""
+	}
+	line := lines[r.Start.Line]
+	start := lsputil.UTF16OffsetToByteOffset(line, int(r.Start.Character))
+	end := lsputil.UTF16OffsetToByteOffset(line, int(r.End.Character))
+	if start > len(line) {
+		start = len(line)
+	}
+	if end > len(line) {
+		end = len(line)
+	}
+	if start > end {
+		return ""
+	}
+	return line[start:end]
 }
 
 func findCommodityStart(line string, byteCol int) int {
